@@ -67,3 +67,4 @@ Print Assumptions C08_clean_tree_has_no_missing_children.
 Print Assumptions C08_clean_tree_prints.
 Print Assumptions C08_printer_tokens_have_prec.
 Print Assumptions C08_print_total.
+Print Assumptions C08_parser_never_panics.
